@@ -1,158 +1,390 @@
 """C01 -- inferred values are sound with respect to execution.
 
-Spec: spec/MiniPy.tla -- a TLC generator of annotated functions (statements over catalogues of
-expressions / tests / patterns, parameter types from the shared term universe, argument tuples =
-Members of the declared types computed by TLC) and the acceptance condition Sound (Member(value,
-inferred type) at every evaluated node).  Every generated function is (a) checked by the real visitor
-with annotate=True, (b) instrumented and executed under CPython with every argument tuple; the recorded
-(node, runtime value, inferred type) events are validated by TLC (MiniPyTrace.tla).
+Spec: spec/MiniPy.tla -- a TLC generator of annotated functions (statement lines composed by TLC from catalogues of
+expressions / tests / targets / patterns, parameter types from the shared term universe, argument tuples = Members of
+the declared types computed by TLC) and the acceptance condition Sound (Member(value, inferred type) at every
+evaluated node).  Every generated function is (a) checked by the real visitor with annotate=True, (b) instrumented and
+executed under CPython with every argument tuple; the recorded events (node evaluations with runtime value and inferred
+type, completed assignments, loop iterations) are validated by TLC (MiniPyTrace.tla), which also replays the mechanisms
+of the known deviation classes over the events, so that an unsound event is filed under a class only if that class's
+mechanism explains this very event.
 """
 from __future__ import annotations
 
 import ast
 import copy
 import random
-from typing import Any
+from typing import Any, Optional
 
 from .. import codec, core, pyz
+from .. import universe as U
 
 LEVEL = "exploration"
 
-PRELUDE = codec.PRELUDE + '''from typing import TypeVar
-T = TypeVar("T")
-U = TypeVar("U")
-
-def ident(a: T) -> T:
-    return a
-
-def first(a: Sequence[T]) -> T:
-    return a[0]
-
-def pair(a: T, b: U) -> tuple[T, U]:
-    return (a, b)
-
-def maybe(a: T) -> Optional[T]:
-    return a if a else None
-
-def tolist(a: T) -> list[T]:
-    return [a]
-'''
-STEP_LIMIT = 400
+PRELUDE = codec.PRELUDE + "from harness.c01_lib import *\n"
+INIT_LINES = ["v = 0", "e = a = b = c = rest = w = cm = None", "ok = False", "m = []", "d = {}"]
+EPILOGUE = ["x", "y", "v", "a", "b", "c", "rest", "e", "w", "ok", "m", "d"]
+# the variables of the generated function (= MiniPy!VarNames); q / k are comprehension variables
+LOCALS = {"x", "y", "v", "w", "ok", "a", "b", "c", "rest", "e", "m", "d", "cm"}
+COMP_VARS = {"q", "k"}
+EVENT_CAP = 160
+# diagnostics that reject an expression (its inferred value is then not claimed); stylistic / reachability codes are not
+REJECT_CODES = {"unsupported_operation", "incompatible_argument", "incompatible_call", "undefined_attribute", "not_callable",
+                "bad_unpack", "type_does_not_support_bool", "undefined_name", "incompatible_assignment", "invalid_typeddict_key",
+                "bad_format_string", "already_declared", "inference_failure", "internal_error", "bad_star_import",
+                "incompatible_return_value", "unhashable_key", "bad_match", "bad_evaluator", "disallowed_import"}
+MAX_LOOPS = 10
 RECORDED = (ast.Name, ast.Subscript, ast.Call, ast.BinOp, ast.IfExp, ast.BoolOp, ast.Compare, ast.Tuple, ast.List,
-            ast.Dict, ast.Attribute, ast.UnaryOp)
+            ast.Dict, ast.Set, ast.Attribute, ast.UnaryOp, ast.Constant, ast.NamedExpr, ast.JoinedStr, ast.ListComp,
+            ast.SetComp, ast.DictComp)
+MUTATORS = {"append", "extend", "insert", "add", "update", "setdefault", "pop", "popitem", "clear", "remove", "sort", "reverse"}
+_OPS = {ast.Add: "+", ast.Sub: "-", ast.Mult: "*", ast.Div: "/", ast.FloorDiv: "//", ast.Mod: "%", ast.Pow: "**",
+        ast.BitOr: "|", ast.BitAnd: "&", ast.BitXor: "^", ast.LShift: "<<", ast.RShift: ">>", ast.MatMult: "@",
+        ast.Eq: "==", ast.NotEq: "!=", ast.Lt: "<", ast.LtE: "<=", ast.Gt: ">", ast.GtE: ">=", ast.Is: "is",
+        ast.IsNot: "is not", ast.In: "in", ast.NotIn: "not in", ast.And: "and", ast.Or: "or", ast.Not: "not",
+        ast.USub: "-", ast.UAdd: "+", ast.Invert: "~"}
 
 
+# --------------------------------------------------------------------------- rendering
 def render_block(block: list[dict], ind: int, out: list[str]) -> None:
     pad = "    " * ind
     for s in block:
-        k = s["k"]
-        if k == "assign":
-            out.append(f"{pad}{s['t']} = {s['e']}")
-        elif k == "expr":
-            out.append(f"{pad}{s['e']}")
-        elif k == "return":
-            out.append(f"{pad}return {s['e']}")
-        elif k == "if":
-            out.append(f"{pad}if {s['hdr']}:")
-            render_block(s["parts"][0], ind + 1, out)
-            if len(s["parts"]) > 1:
-                out.append(f"{pad}else:")
-                render_block(s["parts"][1], ind + 1, out)
-        elif k == "while":
-            out.append(f"{pad}while {s['hdr']}:")
-            render_block(s["parts"][0], ind + 1, out)
-        elif k == "for":
-            out.append(f"{pad}for e in {s['hdr']}:")
-            render_block(s["parts"][0], ind + 1, out)
-        elif k == "try":
-            out.append(f"{pad}try:")
-            render_block(s["parts"][0], ind + 1, out)
-            out.append(f"{pad}except Exception:")
-            render_block(s["parts"][1], ind + 1, out)
-            if len(s["parts"]) > 2:
-                out.append(f"{pad}finally:")
-                render_block(s["parts"][2], ind + 1, out)
-        elif k == "match":
-            out.append(f"{pad}match x:")
-            for pat, body in zip(s["hdr"], s["parts"]):
-                out.append(f"{pad}    case {pat}:")
-                render_block(body, ind + 2, out)
+        if s["k"] in ("line", "jump"):
+            out.append(pad + s["line"])
+        elif s["k"] == "block":
+            extra = 0
+            if s["hdr"]:
+                out.append(pad + s["hdr"])
+                extra = 1
+            for head, part in zip(s["heads"], s["parts"]):
+                out.append("    " * (ind + extra) + head)
+                render_block(part, ind + extra + 1, out)
         else:
             raise core.MachineryError(f"cannot render {s}")
 
 
 def render(case: dict) -> str:
+    if "header" in case:        # canned functions of the self-tests: header and body lines are given literally
+        lines = [case["header"]] + ["    " + ln for ln in INIT_LINES] + ["    " + ln for ln in case["body"]]
+        lines += ["    " + ln for ln in EPILOGUE]
+        return PRELUDE + "\n" + "\n".join(lines) + "\n"
     ax = codec.term_to_annotation(case["tx"])
     ay = codec.term_to_annotation(case["ty"])
-    lines = [f"def f(x: {ax}, y: {ay}):", "    v = 0", "    e = a = b = c = rest = None"]
+    lines = [f"def f(x: {ax}, y: {ay}):"] + ["    " + ln for ln in INIT_LINES]
     render_block(case["prog"], 1, lines)
+    lines += ["    " + ln for ln in EPILOGUE]
     return PRELUDE + "\n" + "\n".join(lines) + "\n"
 
 
-class _Stop(Exception):
+# --------------------------------------------------------------------------- instrumentation
+class _Stop(BaseException):
     pass
 
 
-class _Instrument(ast.NodeTransformer):
-    """Wraps every recorded expression node of f's body in __rec__(index, <expr>)."""
-
-    def __init__(self) -> None:
-        self.nodes: list[ast.AST] = []
-
-    def visit_Call(self, node: ast.Call) -> Any:
-        # do not wrap the callee name itself (its value is a function object, which is not judged)
-        new_args = [self.visit(a) for a in node.args]
-        new_kw = [ast.keyword(arg=k.arg, value=self.visit(k.value)) for k in node.keywords]
-        func = node.func if isinstance(node.func, ast.Name) else self.visit(node.func)
-        inner = ast.Call(func=func, args=new_args, keywords=new_kw)
-        return self._wrap(node, inner)
-
-    def _wrap(self, orig: ast.AST, new: ast.AST) -> ast.AST:
-        self.nodes.append(orig)
-        call = ast.Call(func=ast.Name(id="__rec__", ctx=ast.Load()),
-                        args=[ast.Constant(value=len(self.nodes) - 1), new], keywords=[])
-        return ast.copy_location(call, orig)
-
-    def generic_visit(self, node: ast.AST) -> ast.AST:
-        if isinstance(node, (ast.match_case,)):
-            # patterns are not expressions; only guards and bodies are visited
-            node.body = [self.visit(s) for s in node.body]
-            if node.guard is not None:
-                node.guard = self.visit(node.guard)
-            return node
-        if isinstance(node, ast.Starred):
-            node.value = self.visit(node.value)
-            return node
-        orig = node
-        if isinstance(node, RECORDED) and isinstance(getattr(node, "ctx", ast.Load()), ast.Load):
-            new = super().generic_visit(copy.copy(node))
-            return self._wrap(orig, new)
-        return super().generic_visit(node)
+def _class_name(node: ast.AST) -> str:
+    if isinstance(node, ast.Name):
+        return node.id if node.id in U.CLASSES else "other"
+    return "other"
 
 
-def encode_inferred(value: Any):
+def _literal_obj(node: ast.AST) -> Optional[dict]:
+    """object term of a literal pattern value (None if it is not a literal of the universe's classes)"""
     try:
-        t = codec.value_to_term(value)
-    except core.MachineryError:
+        if isinstance(node, ast.Constant):
+            return codec.py_to_obj(node.value)
+        if isinstance(node, ast.Attribute) and isinstance(node.value, ast.Name) and node.value.id == "Color":
+            return codec.py_to_obj(getattr(U.Color, node.attr))
+        if isinstance(node, ast.UnaryOp) and isinstance(node.op, ast.USub) and isinstance(node.operand, ast.Constant):
+            return codec.py_to_obj(-node.operand.value)
+    except Exception:  # noqa: BLE001
         return None
-    return None if _has_other(t) else t
+    return None
 
 
-def _too_deep(x: Any, d: int = 0) -> bool:
-    if d > 3:
-        return True
-    if isinstance(x, (list, tuple, set)):
-        return any(_too_deep(e, d + 1) for e in x)
-    if isinstance(x, dict):
-        return any(_too_deep(k, d + 1) or _too_deep(v, d + 1) for k, v in x.items())
-    return False
+def _pattern_facts(pat: ast.AST) -> dict:
+    """class patterns (one class list per class pattern) and literal values anywhere inside a match pattern"""
+    cls: list[list[str]] = []
+    lits: list[dict] = []
+    for p in ast.walk(pat):
+        if isinstance(p, ast.MatchClass):
+            cls.append([_class_name(p.cls)])
+        elif isinstance(p, ast.MatchValue):
+            o = _literal_obj(p.value)
+            if o is not None and not _has_other(o):
+                lits.append(o)
+        elif isinstance(p, ast.MatchSingleton):
+            lits.append(codec.py_to_obj(p.value))
+        elif isinstance(p, ast.MatchMapping):
+            for key in p.keys:
+                o = _literal_obj(key)
+                if o is not None and not _has_other(o):
+                    lits.append(o)
+    return {"cls": cls, "lits": lits}
+
+
+class _Instrument:
+    """Rewrites the body of f: every recorded expression node becomes __rec__(index, <expr>); every completed
+    assignment is followed by __mk__("s", site); loops announce entry / iteration / exit.  Collects the node table
+    (syntactic facts read from the pristine tree) and the table of assignment sites."""
+
+    def __init__(self, alias: dict[str, list[str]], leaving_matches: set[int]) -> None:
+        self.leaving_matches = leaving_matches      # line numbers of the match statements the checker found exhaustive
+        self.orig: list[ast.AST] = []
+        self.info: list[dict] = []
+        self.stores: list[dict] = []
+        self.anc: list[int] = []          # indices (1-based) of the recorded ancestors of the node being visited
+        self.sid = 0
+        self.nloops = 0
+        self.alias = alias
+
+    # -- syntactic facts
+    def reads(self, node: Optional[ast.AST]) -> list[str]:
+        out: set[str] = set()
+        if node is None:
+            return []
+        for nd in ast.walk(node):
+            if isinstance(nd, ast.Name) and isinstance(nd.ctx, ast.Load):
+                if nd.id in LOCALS:
+                    out.add(nd.id)
+                elif nd.id in self.alias:
+                    out.update(self.alias[nd.id])
+        return sorted(out)
+
+    def _register(self, node: ast.AST) -> int:
+        self.orig.append(node)
+        idx = len(self.orig)
+        info = {"k": type(node).__name__, "t": ast.unparse(node), "r": self.reads(node), "ch": [], "d": [], "op": [],
+                "fn": "", "cls": [], "pats": [], "s": self.sid, "st": 0, "err": False, "pos": _pos(node)}
+        if isinstance(node, (ast.BinOp, ast.UnaryOp, ast.BoolOp)):
+            info["op"] = [_OPS.get(type(node.op), "?")]
+        elif isinstance(node, ast.Compare):
+            info["op"] = [_OPS.get(type(o), "?") for o in node.ops]
+        elif isinstance(node, ast.Call):
+            if isinstance(node.func, ast.Name):
+                info["fn"] = node.func.id
+                if node.func.id == "isinstance" and len(node.args) == 2:
+                    second = node.args[1]
+                    info["cls"] = ([_class_name(e) for e in second.elts] if isinstance(second, ast.Tuple)
+                                   else [_class_name(second)])
+            elif isinstance(node.func, ast.Attribute):
+                info["fn"] = "." + node.func.attr
+        self.info.append(info)
+        if self.anc:
+            self.info[self.anc[-1] - 1]["ch"].append(idx)
+            for a in self.anc:
+                self.info[a - 1]["d"].append(idx)
+        return idx
+
+    def new_store(self, names: list[str], reads: list[str], node_idx: int) -> int:
+        self.stores.append({"names": sorted(set(n for n in names if n in LOCALS)), "r": sorted(set(reads)), "n": node_idx,
+                            "d": list(self.info[node_idx - 1]["d"]) if node_idx else []})
+        return len(self.stores)
+
+    # -- expressions
+    def expr(self, node: Optional[ast.AST]) -> Any:
+        if node is None:
+            return None
+        if isinstance(node, ast.expr) and isinstance(node, RECORDED) and isinstance(getattr(node, "ctx", None) or ast.Load(), ast.Load):
+            idx = self._register(node)
+            self.anc.append(idx)
+            new = self._children(node, skip_func=True)
+            self.anc.pop()
+            info = self.info[idx - 1]
+            if isinstance(node, ast.NamedExpr) and isinstance(node.target, ast.Name):
+                vidx = info["ch"][0] if info["ch"] else 0
+                info["st"] = self.new_store([node.target.id], self.reads(node.value), vidx)
+            elif (isinstance(node, ast.Call) and isinstance(node.func, ast.Attribute) and node.func.attr in MUTATORS
+                  and isinstance(node.func.value, ast.Name) and node.func.value.id in LOCALS):
+                base = node.func.value.id
+                info["st"] = self.new_store([base], self.reads(node), idx)
+            call = ast.Call(func=ast.Name(id="__rec__", ctx=ast.Load()), args=[ast.Constant(value=idx), new], keywords=[])
+            return ast.copy_location(call, node)
+        return self._children(node, skip_func=False)
+
+    def _children(self, node: ast.AST, skip_func: bool) -> ast.AST:
+        """a shallow copy of node whose expression children are instrumented (the original tree stays pristine)"""
+        new = copy.copy(node)
+        if isinstance(node, ast.JoinedStr):     # only FormattedValue / Constant may be children of an f-string
+            new.values = [ast.FormattedValue(value=self.expr(v.value), conversion=v.conversion, format_spec=v.format_spec)
+                          if isinstance(v, ast.FormattedValue) else v for v in node.values]
+            return new
+        for field, old in ast.iter_fields(node):
+            if isinstance(node, ast.Call) and field == "func":
+                # the callee (a function object / bound method) is never judged; the receiver of a method call is
+                if isinstance(old, ast.Attribute):
+                    new.func = ast.Attribute(value=self.expr(old.value), attr=old.attr, ctx=ast.Load())
+                elif not isinstance(old, ast.Name):
+                    new.func = self.expr(old)
+                continue
+            if isinstance(old, list):
+                setattr(new, field, [self.expr(x) if isinstance(x, ast.AST) else x for x in old])
+            elif isinstance(old, ast.AST) and not isinstance(old, (ast.expr_context, ast.operator, ast.unaryop, ast.boolop, ast.cmpop)):
+                setattr(new, field, self.expr(old))
+        return new
+
+    # -- statements
+    def mark(self, kind: str, arg: int) -> ast.stmt:
+        return ast.Expr(value=ast.Call(func=ast.Name(id="__mk__", ctx=ast.Load()),
+                                       args=[ast.Constant(value=kind), ast.Constant(value=arg)], keywords=[]))
+
+    def _target_names(self, tgt: ast.AST) -> tuple[list[str], list[str]]:
+        """(names bound by the target, variables read or mutated by it)"""
+        names, extra = [], []
+        for nd in ast.walk(tgt):
+            if isinstance(nd, ast.Name) and isinstance(nd.ctx, ast.Store):
+                names.append(nd.id)
+        if isinstance(tgt, (ast.Subscript, ast.Attribute)):
+            base = tgt.value
+            if isinstance(base, ast.Name):
+                names.append(base.id)
+                extra.append(base.id)
+        return names, extra
+
+    def _root(self, new: ast.AST) -> int:
+        """node index of an instrumented expression (0 if the expression itself is not recorded)"""
+        if isinstance(new, ast.Call) and isinstance(new.func, ast.Name) and new.func.id == "__rec__":
+            return new.args[0].value
+        return 0
+
+    def block(self, stmts: list[ast.stmt], top: bool = False) -> list[ast.stmt]:
+        out: list[ast.stmt] = []
+        for s in stmts:
+            out.extend(self.stmt(s))
+        # The checker marked the scope of this block as leaving because a match statement in it (directly, or inside a
+        # with statement, which opens no scope of its own) exhausted its subject (observed, see prepare()): announce that
+        # the end of such a block was nevertheless reached.
+        if stmts and not top and not isinstance(stmts[-1], (ast.Return, ast.Raise, ast.Break, ast.Continue)):
+            for ln in self._leaving_matches_in(stmts):
+                out.append(self.mark("xb", ln))
+        return out
+
+    def _leaving_matches_in(self, stmts: list[ast.stmt]) -> list[int]:
+        out = []
+        for s in stmts:
+            if isinstance(s, ast.Match) and s.lineno in self.leaving_matches:
+                out.append(s.lineno)
+            elif isinstance(s, ast.With):
+                out += self._leaving_matches_in(s.body)
+        return out
+
+    def stmt(self, s: ast.stmt) -> list[ast.stmt]:
+        self.sid += 1
+        if isinstance(s, ast.Assign):
+            val = self.expr(s.value)
+            names, extra = [], []
+            tgts = []
+            for t in s.targets:
+                nm, ex = self._target_names(t)
+                names += nm
+                extra += ex
+                tgts.append(self.expr(t))
+            k = self.new_store(names, self.reads(s.value) + extra, self._root(val))
+            new = ast.copy_location(ast.Assign(targets=tgts, value=val), s)
+            return [new, self.mark("s", k)]
+        if isinstance(s, ast.AugAssign):
+            val = self.expr(s.value)
+            names, extra = self._target_names(s.target)
+            if isinstance(s.target, ast.Name):
+                extra.append(s.target.id)
+            k = self.new_store(names, self.reads(s.value) + extra, self._root(val))
+            new = ast.copy_location(ast.AugAssign(target=self.expr(s.target), op=s.op, value=val), s)
+            return [new, self.mark("s", k)]
+        if isinstance(s, ast.For):
+            self.nloops += 1
+            L = self.nloops
+            it = self.expr(s.iter)
+            names, extra = self._target_names(s.target)
+            k = self.new_store(names, self.reads(s.iter) + extra, self._root(it))
+            body = [self.mark("it", L), self.mark("s", k)] + self.block(s.body)
+            orelse = ([self.mark("lx", L)] + self.block(s.orelse)) if s.orelse else []
+            new = ast.copy_location(ast.For(target=s.target, iter=it, body=body, orelse=orelse), s)
+            return [self.mark("le", L), new, self.mark("lx", L)]
+        if isinstance(s, ast.While):
+            self.nloops += 1
+            L = self.nloops
+            test = ast.BoolOp(op=ast.And(), values=[ast.Call(func=ast.Name(id="__mk__", ctx=ast.Load()),
+                                                             args=[ast.Constant(value="it"), ast.Constant(value=L)], keywords=[]),
+                                                    self.expr(s.test)])
+            body = self.block(s.body)
+            orelse = ([self.mark("lx", L)] + self.block(s.orelse)) if s.orelse else []
+            new = ast.copy_location(ast.While(test=test, body=body, orelse=orelse), s)
+            return [self.mark("le", L), new, self.mark("lx", L)]
+        if isinstance(s, ast.If):
+            test = self.expr(s.test)
+            return [ast.copy_location(ast.If(test=test, body=self.block(s.body), orelse=self.block(s.orelse)), s)]
+        if isinstance(s, ast.Try):
+            body = self.block(s.body)
+            handlers = [ast.copy_location(ast.ExceptHandler(type=h.type, name=h.name, body=self.block(h.body)), h) for h in s.handlers]
+            return [ast.copy_location(ast.Try(body=body, handlers=handlers, orelse=self.block(s.orelse),
+                                              finalbody=self.block(s.finalbody)), s)]
+        if isinstance(s, ast.With):
+            items, marks = [], []
+            for it in s.items:
+                ce = self.expr(it.context_expr)
+                items.append(ast.withitem(context_expr=ce, optional_vars=it.optional_vars))
+                if it.optional_vars is not None:
+                    names, extra = self._target_names(it.optional_vars)
+                    marks.append(self.mark("s", self.new_store(names, self.reads(it.context_expr) + extra, self._root(ce))))
+            return [ast.copy_location(ast.With(items=items, body=marks + self.block(s.body, top=True)), s)]
+        if isinstance(s, ast.Match):
+            subj = self.expr(s.subject)
+            sidx = self._root(subj)
+            cases = []
+            for c in s.cases:
+                if sidx:
+                    self.info[sidx - 1]["pats"].append(_pattern_facts(c.pattern))
+                names = [nd.name for nd in ast.walk(c.pattern) if isinstance(nd, (ast.MatchAs, ast.MatchStar)) and nd.name]
+                names += [nd.rest for nd in ast.walk(c.pattern) if isinstance(nd, ast.MatchMapping) and nd.rest]
+                guard = self.expr(c.guard)
+                k = self.new_store(names, self.reads(s.subject), sidx)
+                # the captures are bound before the guard runs
+                entered = [self.mark("xm", s.lineno)] if s.lineno in self.leaving_matches else []
+                if guard is not None:
+                    guard = ast.BoolOp(op=ast.And(), values=[ast.Call(func=ast.Name(id="__mk__", ctx=ast.Load()),
+                                                                      args=[ast.Constant(value="s"), ast.Constant(value=k)], keywords=[]), guard])
+                    body = entered + self.block(c.body)
+                else:
+                    body = [self.mark("s", k)] + entered + self.block(c.body)
+                cases.append(ast.match_case(pattern=c.pattern, guard=guard, body=body))
+            pre = [self.mark("xs", s.lineno)] if s.lineno in self.leaving_matches else []
+            return pre + [ast.copy_location(ast.Match(subject=subj, cases=cases), s)]
+        if isinstance(s, (ast.Return, ast.Expr, ast.Assert, ast.Raise, ast.Delete)):
+            return [self._children(s, skip_func=False)]
+        if isinstance(s, (ast.Break, ast.Continue, ast.Pass)):
+            return [s]
+        raise core.MachineryError(f"cannot instrument statement {ast.dump(s)[:200]}")
+
+
+def _pos(nd: ast.AST) -> tuple:
+    return (type(nd).__name__, nd.lineno, nd.col_offset, nd.end_lineno, nd.end_col_offset)
+
+
+def _comp_alias(fdef: ast.AST) -> dict[str, list[str]]:
+    """comprehension variable -> function variables its values are drawn from"""
+    alias: dict[str, list[str]] = {}
+    comps = [nd for nd in ast.walk(fdef) if isinstance(nd, ast.comprehension)]
+    for _ in range(3):      # nested generators refer to earlier comprehension variables
+        for comp in comps:
+            rd: set[str] = set()
+            for nd in ast.walk(comp.iter):
+                if isinstance(nd, ast.Name) and isinstance(nd.ctx, ast.Load):
+                    if nd.id in LOCALS:
+                        rd.add(nd.id)
+                    elif nd.id in alias:
+                        rd.update(alias[nd.id])
+            for nd in ast.walk(comp.target):
+                if isinstance(nd, ast.Name):
+                    alias[nd.id] = sorted(rd)
+    return alias
 
 
 def _has_other(t: Any) -> bool:
+    """the term mentions something outside the term universe (an object / class / payload called "other", an unsolved
+    type variable): Member is not defined on it, the event is not judged"""
     if isinstance(t, dict):
-        if t.get("c") == "other" or t.get("v") == "other" and t.get("c") == "type":
+        if t.get("c") == "other" or t.get("v") == "other":
             return True
-        if t.get("k") == "typevar":       # Member is not defined on unsolved type variables
+        if t.get("k") in ("typevar", "skip"):
             return True
         return any(_has_other(v) for v in t.values())
     if isinstance(t, list):
@@ -160,95 +392,261 @@ def _has_other(t: Any) -> bool:
     return False
 
 
-def observe_case(arg: tuple[int, dict]) -> list[dict]:
-    base_tid, case = arg
-    src = render(case)
+def _too_deep(x: Any, d: int = 0) -> bool:
+    if d > 3:
+        return True
+    if isinstance(x, (list, tuple, set)):
+        return len(x) > 8 or any(_too_deep(e, d + 1) for e in x)
+    if isinstance(x, dict):
+        return len(x) > 8 or any(_too_deep(k, d + 1) or _too_deep(v, d + 1) for k, v in x.items())
+    if isinstance(x, str):
+        return len(x) > 60
+    if isinstance(x, int):
+        return abs(x) > 10 ** 9
+    return False
+
+
+SKIP_T = {"k": "skip"}
+NO_OBJ = {"c": "other", "v": "other", "items": []}
+
+
+def encode_inferred(value: Any) -> Optional[dict]:
+    try:
+        t = codec.value_to_term(value)
+    except core.MachineryError:
+        return None
+    return None if _has_other(t) else t
+
+
+def prepare(src: str) -> dict:
+    """check the source with the real visitor, instrument it; returns everything an execution needs"""
+    codec.WIDE = True
     try:
         tree = ast.parse(src)
     except SyntaxError as exc:
         raise core.MachineryError(f"generated function is not valid syntax: {exc}\n{src}")
+    # Observation (no change of the checker's behaviour): which match statements did the checker find exhaustive, i.e.
+    # for which did visit_Match put the LEAVES_SCOPE marker into the scope that is current at the match statement?
+    from pyanalyze import name_check_visitor as ncv
+    from pyanalyze.stacked_scopes import LEAVES_SCOPE
+
+    leaving_matches: set[int] = set()
+    orig_set = ncv.NameCheckVisitor._set_name_in_scope
+
+    def spy(self, varname, node, *a, **k):  # type: ignore[no-untyped-def]
+        if varname == LEAVES_SCOPE and isinstance(node, ast.Match):
+            leaving_matches.add(node.lineno)
+        return orig_set(self, varname, node, *a, **k)
+
+    ncv.NameCheckVisitor._set_name_in_scope = spy
     try:
         fails, visitor, checked_tree = pyz.check_source(src, annotate=True, want_visitor=True)
     except Exception as exc:  # noqa: BLE001   (a crash is a C12 matter; here the case is just unusable)
-        return [{"tid": base_tid, "evals": [], "note": f"checker raised {type(exc).__name__}", "src": src}]
+        return {"error": f"checker raised {type(exc).__name__}: {exc}"}
+    finally:
+        ncv.NameCheckVisitor._set_name_in_scope = orig_set
     # inferred values by source position (the annotated nodes themselves cannot be deep-copied: their inferred
     # values may reference the visitor)
     by_pos: dict[tuple, Any] = {}
     for nd in ast.walk(checked_tree.body[-1]):
         if hasattr(nd, "inferred_value") and hasattr(nd, "lineno"):
-            by_pos[(type(nd).__name__, nd.lineno, nd.col_offset, nd.end_lineno, nd.end_col_offset)] = nd.inferred_value
-    fresh = ast.parse(src)
-    fdef = fresh.body[-1]
-    inst = _Instrument()
-    fdef.body = [inst.visit(s) for s in fdef.body]
-    module = fresh
+            by_pos[_pos(nd)] = nd.inferred_value
+    fdef = tree.body[-1]
+    inst = _Instrument(_comp_alias(fdef), leaving_matches)
+    new_body = inst.block(fdef.body, top=True)
+    if inst.nloops > MAX_LOOPS:
+        return {"error": "too many loops"}
+    new_def = ast.FunctionDef(name=fdef.name, args=fdef.args, body=new_body, decorator_list=[], returns=None, type_params=[])
+    module = ast.Module(body=tree.body[:-1] + [ast.copy_location(new_def, fdef)], type_ignores=[])
     ast.fix_missing_locations(module)
-    inferred = []
-    for nd in inst.nodes:
-        key = (type(nd).__name__, nd.lineno, nd.col_offset, nd.end_lineno, nd.end_col_offset)
-        inferred.append(encode_inferred(by_pos[key]) if key in by_pos else None)
+    # expressions the checker rejected with an error: their inferred value is not claimed to describe the runtime value
+    rejected = {(f.get("lineno"), f.get("col_offset")) for f in fails if getattr(f.get("code"), "name", "") in REJECT_CODES}
+    in_call = {(f.get("lineno"), f.get("col_offset")) for f in fails
+               if getattr(f.get("code"), "name", "") in ("incompatible_argument", "incompatible_call")}
+    inferred: list[Optional[dict]] = []
+    why: list[str] = []
+    for info in inst.info:
+        pos = tuple(info.pop("pos"))
+        start, end = (pos[1], pos[2]), (pos[3], pos[4])
+        info["err"] = start in rejected or (info["k"] == "Call" and any(start <= q < end for q in in_call))
+        if pos not in by_pos:
+            inferred.append(None)
+            why.append("not-annotated")
+        else:
+            t = encode_inferred(by_pos[pos])
+            inferred.append(t)
+            why.append("" if t is not None else "inferred-outside-universe")
+    try:
+        code = compile(module, "<c01>", "exec", dont_inherit=True)
+    except Exception as exc:  # noqa: BLE001
+        raise core.MachineryError(f"instrumented function does not compile: {exc}\n{ast.unparse(module)[-1500:]}")
+    return {"code": code, "nodes": inst.info, "stores": inst.stores, "inferred": inferred, "why": why,
+            "diagnostics": len(fails)}
+
+
+def execute(prep: dict, ax: dict, ay: dict) -> tuple[list[dict], dict[str, int]]:
+    """one instrumented execution under CPython: (events, counters)"""
+    codec.WIDE = True
+    events: list[dict] = []
+    nodes, inferred, why = prep["nodes"], prep["inferred"], prep["why"]
+    cnt = {"judged": 0, "skipped:constant": 0, "skipped:not-annotated": 0, "skipped:inferred-outside-universe": 0,
+           "skipped:value-outside-universe": 0, "skipped:value-too-big": 0}
+    state = {"stop": False}
+
+    def rec(i: int, value: Any) -> Any:
+        if state["stop"]:
+            return value
+        if len(events) >= EVENT_CAP:
+            state["stop"] = True
+            raise _Stop()
+        info = nodes[i - 1]
+        inf = inferred[i - 1]
+        if _too_deep(value):
+            obj, ok = NO_OBJ, False
+            cnt["skipped:value-too-big"] += 1
+        else:
+            obj = codec.py_to_obj(value)
+            ok = not _has_other(obj)
+            if not ok:
+                obj = {"c": obj["c"], "v": "other", "items": []}
+                if info["k"] != "Constant":
+                    cnt["skipped:value-outside-universe"] += 1
+        judged = ok and inf is not None and info["k"] != "Constant"
+        if ok and info["k"] == "Constant":
+            cnt["skipped:constant"] += 1
+        elif ok and inf is None:
+            cnt["skipped:" + why[i - 1]] += 1
+        if judged:
+            cnt["judged"] += 1
+        events.append({"k": "e", "n": i, "v": obj, "i": inf if inf is not None else SKIP_T, "j": judged})
+        if info["st"]:
+            events.append({"k": "s", "site": info["st"]})
+        return value
+
+    def mk(kind: str, arg: int) -> bool:
+        if not state["stop"]:
+            events.append({"k": "s", "site": arg} if kind == "s" else {"k": kind, "loop": arg})
+        return True
+
+    ns: dict[str, Any] = {"__rec__": rec, "__mk__": mk}
+    try:
+        exec(prep["code"], ns)
+        ns["f"](codec.obj_to_py(ax), codec.obj_to_py(ay))
+    except BaseException:  # noqa: BLE001  the program may raise; everything evaluated before still counts
+        pass
+    return events, cnt
+
+
+def observe_case(arg: tuple[int, dict]) -> list[dict]:
+    base_tid, case = arg
+    src = render(case)
+    prep = prepare(src)
+    if "error" in prep:
+        return [{"tid": base_tid, "ev": [], "note": prep["error"], "src": src, "case": case}]
     out = []
     combos = [(ax, ay) for ax in case["argsx"] for ay in case["argsy"]]
     rnd = random.Random(base_tid)
     if len(combos) > 6:
         combos = rnd.sample(combos, 6)
-    code = compile(module, "<c01>", "exec", dont_inherit=True)
     for j, (ax, ay) in enumerate(combos):
-        events: list[list] = []
-        state = {"n": 0}
-
-        def rec(i: int, value: Any, _events=events, _state=state) -> Any:
-            _state["n"] += 1
-            if _state["n"] > STEP_LIMIT:
-                raise _Stop()
-            inf = inferred[i]
-            if inf is None or len(_events) >= 80 or _too_deep(value):
-                return value
-            obj = codec.py_to_obj(value)
-            if not _has_other(obj):
-                _events.append([i, obj, inf])
-            return value
-
-        ns: dict[str, Any] = {"__rec__": rec}
-        try:
-            exec(code, ns)
-            ns["f"](codec.obj_to_py(ax), codec.obj_to_py(ay))
-        except BaseException:  # noqa: BLE001  the program may raise; everything evaluated before still counts
-            pass
-        if events:
-            out.append({"tid": base_tid + j, "evals": events, "args": [ax, ay], "src": src, "case": case,
-                        "nodes": {str(i): ast.unparse(inst.nodes[i]) for i in {e[0] for e in events}}})
+        events, cnt = execute(prep, ax, ay)
+        if cnt["judged"]:
+            out.append({"tid": base_tid + j, "ev": events, "nodes": prep["nodes"], "stores": prep["stores"], "args": [ax, ay],
+                        "src": src, "case": case, "cnt": cnt, "diagnostics": prep["diagnostics"]})
     return out
+
+
+def slim(o: dict) -> dict:
+    """the trace line TLC reads"""
+    return {"tid": o["tid"], "nodes": o["nodes"], "stores": o["stores"], "ev": o["ev"]}
+
+
+def adjudicate(obs: list[dict]) -> tuple[dict, dict]:
+    """TLC judges every judged event through its (value, inferred type) pair (phase 1: the distinct pairs); executions
+    with an unsound pair are then replayed in full (phase 2: MiniPyTrace!Fold classifies every unsound event)."""
+    pair_id: dict[str, int] = {}
+    pairs: list[list] = []
+    per_obs: list[set[int]] = []
+    for o in obs:
+        mine = set()
+        for e in o["ev"]:
+            if e["k"] == "e" and e["j"]:
+                key = core.canon([e["v"], e["i"]])
+                pid = pair_id.get(key)
+                if pid is None:
+                    pid = pair_id[key] = len(pairs) + 1
+                    pairs.append([pid, e["v"], e["i"]])
+                mine.add(pid)
+        per_obs.append(mine)
+    lines = [{"tid": i, "pairs": pairs[i:i + 100]} for i in range(0, len(pairs), 100)]
+    v1, stats = core.adjudicate("MiniPyTrace", "MiniPyTrace.cfg", lines, batch=400, parallel=8, timeout=1200)
+    unsound = set()
+    for vs in v1.values():
+        for v in vs:
+            kind, _, pid = v.partition(":")
+            if kind != "unsound":
+                raise core.MachineryError(f"unexpected phase-1 verdict {v}")
+            unsound.add(int(pid))
+    full = [o for o, mine in zip(obs, per_obs) if mine & unsound]
+    verdicts, stats2 = core.adjudicate("MiniPyTrace", "MiniPyTrace.cfg", [slim(o) for o in full], batch=500, parallel=8,
+                                       timeout=1200)
+    for o in full:
+        vs = verdicts.get(o["tid"], [])
+        if not vs or "allsound" in vs:
+            raise core.MachineryError(f"phase 1 and phase 2 of the trace validation disagree on execution {o['tid']}")
+    stats = {k: stats[k] + stats2[k] for k in stats}
+    stats["observations"] = len(obs)
+    stats["distinct_pairs"] = len(pairs)
+    stats["executions_replayed_in_full"] = len(full)
+    return verdicts, stats
+
+
+def parse_verdict(v: str) -> tuple[str, str, int]:
+    kind, _, rest = v.partition(":")
+    key, _, idx = rest.rpartition(":")
+    return kind, key, int(idx)
 
 
 def judge(check: core.Check, cases: list[dict], label: str) -> None:
     parts = core.pmap(observe_case, [(i * 10, c) for i, c in enumerate(cases)], chunk=25)
-    obs = [o for p in parts for o in p if o.get("evals")]
-    slim = [{"tid": o["tid"], "evals": o["evals"], "tx": o["case"]["tx"], "ty": o["case"]["ty"], "prog": o["case"]["prog"]}
-            for o in obs]
-    verdicts, stats = core.adjudicate("MiniPyTrace", "MiniPyTrace.cfg", slim, batch=4000, parallel=8)
+    flat = [o for p in parts for o in p]
+    unusable = [o for o in flat if not o.get("ev")]
+    obs = [o for o in flat if o.get("ev")]
+    verdicts, stats = adjudicate(obs)
     check.add_trace_stats(stats)
     check.evals(len(obs))
-    check.cov["node_evaluations_judged"] = check.cov.get("node_evaluations_judged", 0) + sum(len(o["evals"]) for o in obs)
+    cov = check.cov
+    ev_cnt = cov.setdefault("node_evaluations", {})
+    for o in obs:
+        for k, n in o["cnt"].items():
+            ev_cnt[k] = ev_cnt.get(k, 0) + n
+    cov["node_evaluations_judged"] = ev_cnt.get("judged", 0)
+    cov["functions_checker_raised"] = cov.get("functions_checker_raised", 0) + len(unusable)
+    cov["executions_of_functions_with_diagnostics"] = cov.get("executions_of_functions_with_diagnostics", 0) + sum(
+        1 for o in obs if o["diagnostics"])
+    excused = cov.setdefault("unsound_events_by_verdict", {})
     by_tid = {o["tid"]: o for o in obs}
     for tid, vs in verdicts.items():
         o = by_tid[tid]
-        for v in set(vs):
-            if v.startswith("dev:"):
-                check.violation(v[4:], v[4:], {"case": {**o["case"], "argsx": [o["args"][0]], "argsy": [o["args"][1]]},
-                                               "src": o["src"], "args": o["args"], "source": label})
-            elif v.startswith("viol:"):
-                clause, _, idx = v[5:].partition(":")
-                bad = [o["evals"][int(idx) - 1]]
-                node = str(bad[0][0])
-                key = core.canon({"src": o["src"].split("def f(")[1], "node": o["nodes"].get(node), "args": o["args"]})
-                check.violation(key, clause, {"case": {**o["case"], "argsx": [o["args"][0]], "argsy": [o["args"][1]]},
-                                              "src": o["src"], "args": o["args"], "node": o["nodes"].get(node),
-                                              "event": bad, "source": label})
+        for v in sorted(set(vs)):
+            kind, key, idx = parse_verdict(v)
+            ev = o["ev"][idx - 1]
+            node = o["nodes"][ev["n"] - 1]["t"]
+            excused[f"{kind}:{key}"] = excused.get(f"{kind}:{key}", 0) + 1
+            payload = {"case": {**o["case"], "argsx": [o["args"][0]], "argsy": [o["args"][1]]}, "src": o["src"],
+                       "args": o["args"], "node": node, "event": ev, "source": label}
+            if kind == "dev":
+                check.violation(key, key, payload)
+            elif kind == "viol":
+                vkey = core.canon({"src": o["src"].split("def f(")[1], "node": node, "args": o["args"]})
+                check.violation(vkey, key, payload)
+            elif kind != "dom":
+                raise core.MachineryError(f"unknown verdict {v}")
     for o in obs:
         check.nontrivial(o["src"])
     for o in obs[:: max(1, len(obs) // 3)][:3]:
-        check.sample({"source": label, "src": o["src"].split("def f(")[1], "args": o["args"], "evals": o["evals"][:4]})
+        evs = [[o["nodes"][e["n"] - 1]["t"], e["v"], e["i"]] for e in o["ev"] if e["k"] == "e" and e["j"]][:4]
+        check.sample({"source": label, "src": o["src"].split("def f(")[1], "args": o["args"], "evals": evs})
 
 
 def run(check: core.Check) -> None:
@@ -257,7 +655,7 @@ def run(check: core.Check) -> None:
     check.assumptions += [
         "runtime values come from instrumented execution of the same source under CPython 3.12; values and inferred types "
         "outside the term universe (other classes, callables, TypedDict) are not judged (counted in the evidence)",
-        "programs do not mutate containers; loops are cut after 400 recorded evaluations",
+        "programs do not mutate containers through aliases; executions are cut after 160 recorded events",
     ]
     em = core.require_ok(core.run_tlc("MiniPyEmit", "MiniPy.emit1.cfg", timeout=1800), "MiniPy emit")
     check.add_tlc("emit1", em)
@@ -265,8 +663,8 @@ def run(check: core.Check) -> None:
     n1 = 3000 if quick else 54000
     if len(cases) > n1:
         cases = rnd.sample(cases, n1)
-    sim = core.simulate_cases("MiniPyEmit", "MiniPy.sim.cfg", 3000 if quick else 60000, depth=16, seed=check.seed + 6,
-                              check=check, first_num=2)
+    sim = core.simulate_cases("MiniPyEmit", "MiniPy.sim.cfg", 3000 if quick else 60000, depth=40, seed=check.seed + 6,
+                              check=check, first_num=2000)
     check.cov["exhaustive"] = False
     check.cov["rule"] = ("functions generated by TLC (every single-statement body x every pair of parameter types, sampled; longer "
                          "bodies by simulation) x argument tuples drawn by TLC from the declared types; non-trivial = distinct "
